@@ -17,6 +17,16 @@ CHECKS = {
         note='Trusted: z3 FP decision procedure; the numpy model (conformance-checked against the real numpy; every '
              'reachability witness is replayed bitwise on the real code). Grids outside the family are outside the claim.',
         ref='DESIGN.md 4/C02'),
+    'C14': dict(
+        text='Bounded symbolic model checking: the real write_ascii / load_catalog (csep_ascii), to_dict / from_dict, write_json / '
+             'load_json and to_dataframe / from_dataframe run on catalogs of N = 0..2 (3) events with symbolic fields (origin time any '
+             'integer millisecond of 1900..2200, real coordinates / depth / magnitude, symbolic integer catalog id) through field-level '
+             'stubs of csv / json / pandas; z3 decides same count, order and six fields per event, catalog id, and name / region for '
+             'dict and JSON. Reduced scope: text-level survival (quoting, printed digits) is inside the stubs; a concrete twin with '
+             'the real libraries covers awkward ids, pre-1970 times, extreme coordinates and 17-digit doubles.',
+        note='Trusted: z3; csv / json / pandas field-level stubs (identity channel on well-formed fields); datetime model; time '
+             'arithmetic exact over the reals here (its float rounding is decided in C15).',
+        ref='DESIGN.md 4/C14'),
     'C15': dict(
         text='Bounded symbolic model checking over every integer millisecond / microsecond instant of 1900..2200: the real '
              'time_utils functions run on symbolic instants through a step-by-step model of CPython datetime. The '
